@@ -7,7 +7,8 @@ package main
 //
 //	g ─┬─ a1(d0, carries a transfer founder->u1) ─┬─ a2 (d1)
 //	   │                                          ├─ a2x(d1, same height, same parent: double mining)
-//	   │                                          └─ a2m(d2)
+//	   │                                          ├─ a2m(d2)
+//	   │                                          └─ a2t(d1, carries a transfer founder->u2 of 3 LEMO)
 //	   └─ b1(d1) ── b2(d2) ── b3(d0)
 //
 // The virtual clock stands at genesis+25s: every block above is in the past, and d3 (the node) is
@@ -45,7 +46,7 @@ type world struct {
 	genesis    common.Hash
 }
 
-var treeSpec = []string{"a1<g@0", "a2<a1@1", "a2x<a1@1", "a2m<a1@2", "b1<g@1", "b2<b1@2", "b3<b2@0"}
+var treeSpec = []string{"a1<g@0", "a2<a1@1", "a2x<a1@1", "a2m<a1@2", "b1<g@1", "b2<b1@2", "b3<b2@0", "a2t<a1@1"}
 
 func buildWorld() *world {
 	vclock.SetUnix(int64(node.GenesisTime) + clockOff)
@@ -74,8 +75,11 @@ func buildWorld() *world {
 			panic("harness: no slot for " + bn)
 		}
 		var txs types.Transactions
-		if bn == "a1" {
+		switch bn {
+		case "a1":
 			txs = types.Transactions{node.Transfer(node.Founder(), w.u1, node.Lemo(1), exp)}
+		case "a2t": // a block that extends the a branch with a transaction of its own (distinct from a1's and from the pool transaction)
+			txs = types.Transactions{node.Transfer(node.Founder(), w.u2, node.Lemo(3), exp)}
 		}
 		blk, invalid, err := f.Make(node.BlockSpec{Parent: parent, Miner: miner, Time: t, Txs: txs, Extra: bn})
 		if err != nil || len(invalid) > 0 {
@@ -83,6 +87,9 @@ func buildWorld() *world {
 		}
 		if int64(t) > int64(node.GenesisTime)+clockOff {
 			panic("harness: block " + bn + " is in the future of the virtual clock")
+		}
+		if len(blk.Txs) != len(txs) {
+			panic("harness: block " + bn + " does not carry its transactions")
 		}
 		blocks[bn] = blk
 		enc, err := rlp.EncodeToBytes(blk)
